@@ -584,6 +584,49 @@ def _dynamic(case, v, log, stats):
     expected[(imp['module'], path)] = uid
     if want_b is not None:
       expected[(imp['module'], path, 'b')] = want_b
+  # a class referenced in one text, one of its methods configured in a LATER
+  # text (which registers the class anew): the stored reference follows, however
+  # it was spelled
+  class_then_method = None
+  if rng.random() < 0.4:
+    forms = [{'form': 'from', 'module': 'vq1.mod', 'alias': None},
+             {'form': 'import_as', 'module': 'vq1.mod', 'alias': 'mod2'},
+             {'form': 'import', 'module': 'vq1.mod', 'alias': None}]
+    imp1, imp2 = rng.choice(forms), rng.choice(forms)
+    evaluated = rng.random() < 0.4
+    text1 = '\n'.join(['from __gin__ import dynamic_registration',
+                       c19.import_line(imp1),
+                       '%s.x = @%s%s' % (c19.spell(imp1, 'consume'),
+                                         c19.spell(imp1, 'K0'),
+                                         '()' if evaluated else '')]) + '\n'
+    text2 = '\n'.join(['from __gin__ import dynamic_registration',
+                       c19.import_line(imp2),
+                       '%s.mp = 77' % c19.spell(imp2, 'K0.meth')]) + '\n'
+    try:
+      gin.parse_config(text1)
+      gin.config_str()
+      gin.parse_config(text2)
+    except Exception as e:  # pylint: disable=broad-except
+      v('C06.dynamic_parse', ['class-then-method', type(e).__name__],
+        'parsing %r then %r raised %r' % (text1, text2, e))
+      return
+    class_then_method = (evaluated, text1, text2)
+
+    def method_sees_binding(where):
+      received.clear()
+      try:
+        gin.get_configurable(c19.lookup(mods, 'vq1.mod', 'consume'))()
+        x = received[('vq1.mod', 'consume')]['x']
+        (x if evaluated else x()).meth()
+        got = received.get(('vq1.mod', 'K0.meth'), {}).get('mp')
+      except Exception as e:  # pylint: disable=broad-except
+        got = 'EXC %s: %s' % (type(e).__name__, probes.scrub(str(e))[:200])
+      if got != 77:
+        v('C06.round_trip', ['dynamic', 'class-reference-then-method', where],
+          '%s: consume.x = @K0%s (written in %r), K0.meth.mp = 77 set by a '
+          'later text (%r): the delivered class\'s meth() receives mp=%r' %
+          (where, '()' if evaluated else '', text1, text2, got))
+    method_sees_binding('before serialising')
   with_singleton = rng.random() < 0.5
   if with_singleton:
     # Gin's own configurables (`gin.singleton`) next to dynamically registered
@@ -649,6 +692,8 @@ def _dynamic(case, v, log, stats):
       v('C06.round_trip', ['dynamic', 'singleton-constructor'],
         'after re-parsing, sk/gin.singleton.constructor: %s\n%s' %
         (probes.scrub(str(e))[:200], S))
+  if class_then_method is not None:
+    method_sees_binding('after re-parsing config_str()')
   for key, val in sorted(expected.items(), key=repr):
     if len(key) == 3:
       continue
